@@ -14,7 +14,13 @@ EXPLANATION = ("bounded stand-in: trajectories produced by the exporters from ev
 TRUSTED = ["spec/views.py:v_state", "scenario domain of spec/gen.py (fluent d with repeated arguments, zero-arity atom g, negative/fractional values via init variants)"]
 ASSUMPTIONS = ["bounded: plan length <= 3; 2 objects; 3 initial-state variants"]
 
-INIT_VARIANTS = [(), ("(g)", "(q o2)"), ("(r o1 o1)", "(= (d o1 o1) -2.5)", "(= (f o2) 0.125)")]
+INIT_VARIANTS = [(), ("(g)", "(q o2)"), ("(r o1 o1)", "(= (d o1 o1) -2.5)", "(= (f o2) 0.125)"), ("(= (f o2) -0.123456)", "(= (d o1 o2) 1234567.25)")]
+STRIPS_DOMAIN = """(define (domain st) (:requirements :typing :negative-preconditions) (:types a - object)
+(:predicates (p ?x - a) (q ?x - a))
+(:action del :parameters (?x - a) :precondition (and (p ?x)) :effect (and (not (p ?x))))
+(:action add :parameters (?x - a) :precondition (and (not (p ?x))) :effect (and (p ?x)))
+(:action delq :parameters (?x - a) :precondition (and (q ?x)) :effect (and (not (q ?x)))))"""
+STRIPS_PROBLEM = "(define (problem sp) (:domain st) (:objects o1 o2 - a) (:init (p o1) (q o2)) (:goal (and (p o2))))"
 
 
 def _parse_traj(dom, prob, text, agents=None):
@@ -143,4 +149,44 @@ class JointRoundTrip(Harness):
         return out[:3]
 
 
-HARNESSES = [TrajectoryRoundTrip(), JointRoundTrip()]
+class EmptyStates(Harness):
+    """trajectories of a fluent-free domain in which intermediate states are completely empty"""
+    name = "c10-empty"
+    prop = "C10"
+    functions = ("TrajectoryParser.parse_trajectory", "TrajectoryParser.parse_state", "TrajectoryExporter.export", "State.serialize")
+    bound = {"quick": "all plans of length <= 4 over {del, add, delq} x {o1, o2} of a STRIPS domain (facts only), applicable steps only", "thorough": "length <= 5"}
+    rule = "plan; non-trivial = some state of the trajectory is empty; distinct by plan"
+
+    def inputs(self, tier, seed):
+        calls = [(n, (o,)) for n in ("del", "add", "delq") for o in ("o1", "o2")]
+        for n in range(1, (4 if tier == "quick" else 5) + 1):
+            for plan in itertools.product(calls, repeat=n):
+                yield {"plan": [[c[0], list(c[1])] for c in plan]}
+
+    def nontrivial_key(self, inp):
+        return str(inp["plan"]) if sum(1 for c in inp["plan"] if c[0] in ("del", "delq")) >= 2 else None
+
+    def check(self, inp):
+        from pddl_plus_parser.exporters.numeric_trajectory_exporter import TrajectoryExporter
+        dom = RA.parse_domain_text(STRIPS_DOMAIN)
+        prob = RA.parse_problem_text(STRIPS_PROBLEM, dom)
+        plan = [(n, tuple(a)) for n, a in inp["plan"]]
+        ex = TrajectoryExporter(dom, allow_invalid_actions=False)
+        tr = ex.parse_plan(prob, None, [G.call_text(c) for c in plan])
+        self.cases += 1
+        text = "".join(TrajectoryExporter.export(tr))
+        r = RA.outcome(_parse_traj, dom, prob, text)
+        if r[0] != "ok":
+            return [Failure(clause="the exporter's output is accepted by the trajectory parser", expected="observation", observed=(r, text[:300]))]
+        out = []
+        if len(r[1].components) != len(tr):
+            return [Failure(clause="one component per action", expected=len(tr), observed=len(r[1].components))]
+        for k, (c, t) in enumerate(zip(r[1].components, tr)):
+            for which, ps, es in (("pre", c.previous_state, t.previous_state), ("post", c.next_state, t.next_state)):
+                if V.v_state(ps) != V.v_state(es):
+                    out.append(Failure(clause=f"parsed {which}-state k == exported {which}-state k (also when the state is empty)",
+                                       expected=str(V.v_state(es)), observed=str(V.v_state(ps)), input={**inp, "step": k}))
+        return out[:2]
+
+
+HARNESSES = [TrajectoryRoundTrip(), JointRoundTrip(), EmptyStates()]
